@@ -799,9 +799,11 @@ impl<'a> Interp<'a> {
                 Some(RV::Int(if matches!(&c.body, Equals(_)) { e } else { !e } as i64))
             }
             And(b) | Or(b) | Xor(b) => {
-                // both operands are always evaluated
-                let x = self.expr(&b[0], act, &Self::child(loc, 0))?.truthy();
-                let y = self.expr(&b[1], act, &Self::child(loc, 1))?.truthy();
+                // both operands are always evaluated; truthiness is taken when the operator runs
+                // (a table operand is a reference: the second operand may still change it)
+                let x = self.expr(&b[0], act, &Self::child(loc, 0))?;
+                let y = self.expr(&b[1], act, &Self::child(loc, 1))?;
+                let (x, y) = (x.truthy(), y.truthy());
                 let r = match &c.body {
                     And(_) => x && y,
                     Or(_) => x || y,
